@@ -118,6 +118,12 @@ CLAIMED = {
             "of the real code per case; libm arctan resolved by solver-checked hints.", "4/C25",
             "symbolic execution of the real quadrant/arctan code from an arbitrary invariant-satisfying state (Weierstrass angle, quadrant range axioms) + z3 per obligation; float replay",
             "Histories of any length follow by induction on the stated invariant; phi = pi exactly and |n| > 1000 are outside; tolerance 1e-9 for np.pi vs pi."),
+    "C26": ("model_checking", "2-safety: for every memoised method and every enumerated aliasing pattern between two argument tuples, with and without "
+            "a state-changing operation in between, the memoised result is compared (symbolically, entry by entry) with the result the same object "
+            "computes with its caches cleared just before the call. A key that omits an argument group the body reads, or an attribute the key cannot "
+            "see, yields a stale hit and a solver counterexample.", "4/C26",
+            "bounded exploration of operation sequences on the real objects with symbolic arguments (cachetools running on structural symbolic keys) + z3 per compared entry; float replay",
+            "Sequences of length <= 3; aliasing enumerated per argument group rather than decided by the solver."),
 }
 
 NOT_APPLICABLE = {
